@@ -112,7 +112,7 @@ def _jobs(ctx: Ctx) -> tuple[list[dict], dict]:
     life = ctx.behaviours("MC_Mutants", "MC_Mutants_q.cfg" if q else "MC_Mutants.cfg")
     each = ctx.behaviours("MC_Mutants", "MC_Mutants_each_q.cfg" if q else "MC_Mutants_each.cfg")
     sims = [{"cfg": s["cfg"], "route": s["route"], "hist": s["hist"]}
-            for s in ctx.simulate("MC_Mutants", "MC_Mutants_sim.cfg", num=150 if q else 3000, depth=10)]
+            for s in ctx.simulate("MC_Mutants", "MC_Mutants_sim.cfg", num=150 if q else 2000, depth=10)]
     info["schedules_lifecycle"] = len(life)
     info["schedules_exit_at_each_yield"] = len(each)
     info["schedules_simulated"] = len(sims)
@@ -120,13 +120,19 @@ def _jobs(ctx: Ctx) -> tuple[list[dict], dict]:
     nm = {m: len(ad.reference(m, "fo:plain")["full"]) for m in tiny}
     jobs = []
     order = lambda b: (b["cfg"], b["route"], json.dumps(b["hist"]))  # noqa: E731
-    # programs rotate over the schedules (quick: one per schedule; thorough: three / all)
+    # programs rotate over the schedules (quick: one program per schedule; thorough: two per life-cycle
+    # schedule, every program for an exit at each yield through MutationController, three otherwise)
     for i, b in enumerate(sorted(life, key=order)):
-        for j in range(1 if q else 3):
+        for j in range(1 if q else 2):
             jobs.append({**b, "mod": tiny[(i + 3 * j) % len(tiny)]})
     for i, b in enumerate(sorted(each, key=order)):
         k = b["hist"][1]["k"]
-        mods = [tiny[i % len(tiny)]] if q else tiny
+        if q:
+            mods = [tiny[i % len(tiny)]]
+        elif b["route"] == "ctl":
+            mods = tiny
+        else:
+            mods = [tiny[(i + 3 * j) % len(tiny)] for j in range(3)]
         for m in mods:
             if q or k <= nm[m] + 1:          # larger k repeat the schedule with k = n + 1
                 jobs.append({**b, "mod": m})
@@ -216,6 +222,11 @@ def run(ctx: Ctx) -> None:
     referr = sorted({t["meta"]["reference_raised"] for t in keep if t["meta"]["reference_raised"]})
     if referr:
         ctx.drift.append(f"the reference (full) enumeration itself raised {referr}; the recorded prefix is used")
+    over = sum(1 for t in keep if t["kind"] == "select" and t["cap"] >= 0
+               for e in t["ev"] if e["rt"] == "stop" and e["base"] == 0 and len(e["seen"]) > t["cap"])
+    if over:
+        ctx.drift.append(f"{over} capped enumeration(s) yielded more mutants than `maximum_mutants` "
+                         "(the design model's `_stratified_counts` keeps at most the cap)")
     if identical:
         ctx.drift.append(f"{identical} yielded mutant(s) do not differ from the original tree at all")
     if attr:
